@@ -143,7 +143,7 @@ prop('C20',
      level_text='Exploration. Generated histories of mlog/mlog_nice/mlog_clear/reads are executed on the real mlog.c in '
      'lock-step with a ring model; all 256 line reads, out-of-range reads and the dump are compared after every '
      'operation, at counts clustered on multiples of 256 and on both sides of the 2^31 counter fold.',
-     level_note='Format strings are drawn from a fixed pool of 8 (0-3 arguments, one with a string argument). '
+     level_note='Format strings are drawn from a fixed pool of 9 (0-3 arguments, two with a string argument, one of them with strings of every length 0..199). '
      'The hook only writes the counter; slot contents always come from real mlog calls.')
 
 # ----------------------------------------------------------------------- C18
